@@ -15,6 +15,11 @@ Spec: spec/Calendar.tla.  Six machines in one module:
          date-time, day 0 included) with the months argument walking by
          quarters.  The functions use the whole part; for a negative argument
          truncation and floor are both allowed.
+  far    one argument of DATE / EOMONTH / EDATE walked away from zero decade
+         by decade (+-{1,2,3,5,7} * 10^0..20, as an int and as the double a
+         cell holds) while the others are pinned: a day or month argument
+         carries over any number of years, and what leaves the calendar is
+         #NUM! however far it leaves it -- never an exception.
 TLC runs twice on the same machines and constants: once checking the laws and
 printing the vectors, once without laws under -coverage to see that every
 action is taken (the state counts of the two runs must agree).
@@ -49,7 +54,7 @@ PER_KIND_CAP = 3         # ... per (function, access path, exception type)
 _CALL = object()         # 'no result supplied: call the library function'
 
 ARG_ACTIONS = ('NextDayArg', 'NextMonthArg', 'NextShift', 'Tick',
-               'SwapDates', 'NextBasis', 'NextFrac')
+               'SwapDates', 'NextBasis', 'NextFrac', 'NextDecade')
 
 
 # ---------------------------------------------------------------------------
@@ -186,12 +191,16 @@ def wrapper(tier, modes, rnd, tag, laws=True):
             # numerators of years with a fraction (below 9999: the whole part
             # of 9999.25 is a legal year only if the fraction is dropped first)
             'RndFracYears == BigFracYears \\cup {' + pick(6, 0, 4 * 9999 - 1) + '}',
-            'RndFracStarts == BigFracStarts \\cup {' + pick(20, 1, MAX_SERIAL) + '}']
+            'RndFracStarts == BigFracStarts \\cup {' + pick(20, 1, MAX_SERIAL) + '}',
+            'RndFarYears == BigFarYears \\cup {' + pick(4, 0, 9999) + '}',
+            'RndFarStarts == BigFarStarts \\cup {' + pick(6, 1, MAX_SERIAL) + '}']
         cfg = (cfg.replace('BigShiftStarts', 'RndShiftStarts')
                .replace('BigYfDays', 'RndYfDays')
                .replace('BigDateYears', 'RndDateYears')
                .replace('BigFracYears', 'RndFracYears')
-               .replace('BigFracStarts', 'RndFracStarts'))
+               .replace('BigFracStarts', 'RndFracStarts')
+               .replace('BigFarYears', 'RndFarYears')
+               .replace('BigFarStarts', 'RndFarStarts'))
     body.append('====')
     with open(os.path.join(d, mod + '.tla'), 'w') as f:
         f.write('\n'.join(body) + '\n')
@@ -404,10 +413,10 @@ def run(tier, seed):
     # the calendar chain), the action counts on 1.
     out = {}
     if quick:
-        modes, arg_seed = ['cal', 'date', 'shift', 'time', 'yf', 'frac'], seed
+        modes, arg_seed = ['cal', 'date', 'shift', 'time', 'yf', 'frac', 'far'], seed
         t_cal = None
     else:
-        modes, arg_seed = ['date', 'shift', 'time', 'yf', 'frac'], seed + 1
+        modes, arg_seed = ['date', 'shift', 'time', 'yf', 'frac', 'far'], seed + 1
         t_cal = threading.Thread(target=run_tlc, args=(
             tier, ['cal'], random.Random(seed), 'cal', 1, False, out))
         t_cal.start()
@@ -433,7 +442,7 @@ def run(tier, seed):
         if res.coverage.get(act, (0, 0))[1] == 0:
             raise tlc.MachineryFailure(f'vacuous: action {act} never taken')
     v.add_tlc(res, 'Calendar_mc (all machines)' if quick
-              else 'Calendar_big (date, shift, time, yf, frac)')
+              else 'Calendar_big (date, shift, time, yf, frac, far)')
     v.extra['action_count_run'] = dict(
         what='same machines and constants, no INVARIANT / PROPERTY, -coverage',
         distinct=cov.distinct, generated=cov.generated, wall_s=round(cov.wall, 2))
@@ -450,13 +459,16 @@ def run(tier, seed):
                       ('time', lambda x: x['s']),
                       ('yf', lambda x: (x['a'], x['b'], x['basis'], x['swapped'])),
                       ('fdate', lambda x: (x['y'], x['m'], x['d'], x['walk'])),
-                      ('fshift', lambda x: (x['n'], x['q'], x['k']))):
+                      ('fshift', lambda x: (x['n'], x['q'], x['k'])),
+                      ('far', lambda x: (x['kind'], x['a'], x['b'], x['sg'], x['mt'], x['ex']))):
         if len({key(x) for x in by.get(kind, [])}) != len(by.get(kind, [])):
             # split chains that did not merge into one another
             raise tlc.MachineryFailure(f'duplicate {kind} vectors in the export')
     sheet = Sheet()
-    fbudget = dict(date=1500, shift=1500, time=1000, yf=400, cal=3000, frac=1000) if quick \
-        else dict(date=20000, shift=20000, time=15000, yf=3000, cal=60000, frac=12000)
+    fbudget = dict(date=1500, shift=1500, time=1000, yf=400, cal=3000, frac=1000,
+                   far=800) if quick \
+        else dict(date=20000, shift=20000, time=15000, yf=3000, cal=60000, frac=12000,
+                  far=8000)
 
     # -- DATE(y, m, d), m, d in -40..60
     j = Judge()
@@ -524,6 +536,38 @@ def run(tier, seed):
             for fn, g in zip(('YEAR', 'MONTH', 'DAY', 'WEEKDAY'), got[2:]):
                 j.check(fn, (start,), vec[fn.lower()], via=f'formula ={fn}(A1)', got=g)
     v.sample(fshifts[len(fshifts) // 2])
+    total_bad += j.merge_into(v, counter)
+
+    # -- far arguments: +-mantissa * 10^exponent, as the exact int and as the
+    # double a cell holds (beyond 2^53 the double is not that int: both are
+    # far beyond the calendar, where the spec says the same for all of them)
+    j = Judge()
+    fars = by.get('far', [])
+    if not fars:
+        raise tlc.MachineryFailure('no vectors of the far machine in the export')
+    pf = min(1.0, fbudget['far'] / max(1, len(fars)))
+    for vec in fars:
+        exact = vec['sg'] * vec['mt'] * 10 ** vec['ex']
+        a, b, kind = vec['a'], vec['b'], vec['kind']
+        for val in (exact, float(exact)):
+            formula = isinstance(val, float) and (
+                rnd.random() < pf or (vec['mt'] == 1 and vec['ex'] in (4, 5, 7, 20)))
+            if kind in ('year', 'month', 'day'):
+                args = dict(year=(val, a, b), month=(a, val, b), day=(a, b, val))[kind]
+                j.check('DATE', args, vec['date'])
+                if formula:
+                    got, = sheet.get(dict(G1=args[0], H1=args[1], I1=args[2]), ['J1'])
+                    j.check('DATE', args, vec['date'], via='formula =DATE(G1,H1,I1)', got=got)
+            else:
+                args = (a, val) if kind == 'shift' else (val, a)
+                j.check('EOMONTH', args, vec['eomonth'])
+                j.check('EDATE', args, vec['edate'])
+                if formula:
+                    g1, g2 = sheet.get(dict(A1=args[0], K1=args[1]), ['L1', 'M1'])
+                    j.check('EOMONTH', args, vec['eomonth'],
+                            via='formula =EOMONTH(A1,K1)', got=g1)
+                    j.check('EDATE', args, vec['edate'], via='formula =EDATE(A1,K1)', got=g2)
+    v.sample(next(x for x in fars if x['kind'] == 'day' and x['ex'] == 4))
     total_bad += j.merge_into(v, counter)
 
     # -- YEARFRAC symmetry (value not judged)
@@ -647,7 +691,7 @@ def run(tier, seed):
 
     phase['drive_cal'] = round(time.time() - t0, 1)
     v.traces = ndays + 1 + n_date + len(shifts) + n_pairs + len(times) \
-        + len(fdates) + len(fshifts)
+        + len(fdates) + len(fshifts) + len(fars)
     v.extra.update(
         exhaustive=not quick,
         phase_elapsed_s=phase,
@@ -665,6 +709,11 @@ def run(tier, seed):
         frac_rule='arguments in quarters; DATE along lines of the -40..60 grid, '
                   'EOMONTH/EDATE from every quarter of a start day, months -30..30 '
                   'by quarters; whole part, negative: truncation or floor',
+        far_vectors=len(fars),
+        far_rule='one argument of DATE / EOMONTH / EDATE = +-{1,2,3,5,7} * 10^(0..20) as int '
+                 'and as double, the others pinned; evaluated exactly up to 10^6, '
+                 'beyond that out of the calendar: #NUM! (a start day: any value), '
+                 'never an exception',
         time_vectors=len(times), time_day_offsets=[p[0] for p in plan],
         time_deltas_ms=times[1]['deltas'],
         discrepancies_total=total_bad, discrepancies_stored=len(v.violations),
@@ -673,7 +722,6 @@ def run(tier, seed):
         unconstrained=[
             'DATE whose month argument carries to before 1900-01 while the day '
             'argument carries back into range (any value, no exception)',
-            'DATE whose month carries beyond 9999-12 and the day back: serial or #NUM!',
             'EDATE from serial 0 (day 0 of a month)',
             'YEAR/MONTH/DAY/WEEKDAY/EOMONTH/EDATE of a serial > 2958465: '
             'any value, no exception',
